@@ -222,7 +222,6 @@ def run(model, rep, tier):
         "dns.rdtypes.CH.A.A._to_wire": "Chaosnet A: legacy behaviour of the library, readers decompress",
         "dns.rdtypes.IN.SRV.SRV._to_wire": "legacy behaviour of the library (RFC 2782 forbids, every reader accepts); equality of SRV targets is case-insensitive",
         "dns.rdtypes.IN.NAPTR.NAPTR._to_wire": "legacy behaviour of the library; replacement compared case-insensitively",
-        "dns.rdtypes.ANY.TKEY.TKEY._to_wire": "algorithm name; legacy behaviour of the library",
         "dns.rdtypes.ANY.AMTRELAY.AMTRELAY._to_wire": "hands the table to the Relay helper, which writes the name with compress=None",
         "dns.rdtypes.IN.IPSECKEY.IPSECKEY._to_wire": "hands the table to the Gateway helper, which writes the name with compress=None",
     }
@@ -239,7 +238,7 @@ def run(model, rep, tier):
                 else:
                     rep.bad("R-03.11", fw.qualname, where(fw, c), f"`{src(c)[:60]}` writes an embedded name with the message's compression table, and {fw.qualname} is not one of the types whose names may be "
                             "compressed: an independent decoder sees a bare pointer in opaque RDATA, and a case-preserving name comes back in the case of an earlier equal name", stmt=f"compresses {src(c.func.value)[:30]}")
-    rep.floor("R-03.11", n_comp, 8)
+    rep.floor("R-03.11", n_comp, 7)
     from rules.common import presence_by_identity
     presence_by_identity(model, rep, "R-03.10", ["dns.renderer", "dns.message"], {"id"}, "an optional number of the renderer/message API", "id 0, used by DoH/DoQ, is replaced by a random id", 2, "dns.renderer+dns.message")
     rep.meta["explanation"] = (
